@@ -143,6 +143,9 @@ impl Check for C17 {
         let mut params = HashMap::new();
         params.insert("patterns".to_string(), pats.iter().map(|p| p.enc()).collect::<Vec<_>>().join(";"));
         params.insert("periods".to_string(), r.range(20, 26).to_string());
+        // other traffic right after registration: a capability request that is never ended, a NICK change, an AWAY
+        let extras: Vec<String> = pats.iter().map(|_| ["", "", "", "CAP REQ :multi-prefix", "CAP LS 302", "NICK renamed", "AWAY :afk", "JOIN #k"][r.below(8)].to_string()).collect();
+        params.insert("extras".to_string(), extras.join(";"));
         Trace { check: "C17".into(), seed: 0, run_seed, config: cfg, params, actions: vec![] }
     }
 
@@ -237,7 +240,22 @@ async fn exec_inner(t: Trace) -> Outcome {
     }
     w.settle().await;
     let _ = w.observe();
-    let t0 = rt::virtual_elapsed_ms();
+    let extras: Vec<String> = t.params.get("extras").map(|s| s.split(';').map(|x| x.to_string()).collect()).unwrap_or_default();
+    for (i, s) in subs.iter_mut().enumerate() {
+        if let Some(e) = extras.get(i) {
+            if !e.is_empty() {
+                let line = if e.starts_with("NICK renamed") { format!("NICK renamed{}", i) } else { e.clone() };
+                w.apply(&Action::line(s.conn, &line)).await;
+                out.count(&format!("extra.{}", e.split(' ').next().unwrap_or("")), 1);
+                if e.starts_with("NICK renamed") {
+                    s.nick = format!("renamed{}", i);
+                }
+            }
+        }
+    }
+    w.settle().await;
+    let _ = w.observe();
+    let t0 = rt::virtual_elapsed_ms() - 1;
     let horizon = t0 + periods * ping_ms + pong_ms + 4 * tick;
     let mut wit_pings: Vec<u64> = vec![];
     let mut wit_tok = 0u32;
